@@ -24,5 +24,47 @@ def run(ctx, rep):
                 "read by abstract interpretation and compared; index-arithmetic casts and the bounds check guarding element pointers are checked on MIR.")
     rep.assume("model conformance of each list/map operation and aliasing over histories are not decided")
     _builtins.run(F, rep, "C13.builtin", "list+map")
+    list_equality(F, rep)
     if _casts is not None:
         _casts.run_c13(F, rep)
+
+
+def list_equality(F, rep):
+    """`==` on lists compares whole sequences: the (Vector, Vector) cell of Primitive::equals is slice equality (which
+    compares lengths), and no interpreter code pairs two sequences with Iterator::zip (which silently truncates to the
+    shorter one) without first comparing their lengths."""
+    import absint
+    import tables
+    from absint import Interp
+    T = tables.Tables(F)
+    eq = F.fn(tables.PRIM + "::equals")
+    if eq is None:
+        raise AnchorMissing("Primitive::equals")
+    it = Interp(F, models=tables.MODELS, max_depth=3, max_paths=64)
+    outs = it.run(eq, [T.prim_value("Vector", "l"), T.prim_value("Vector", "r")])
+    calls = set()
+    for o in outs:
+        for e in o.events:
+            if e[0] == "call":
+                calls.add(e[1])
+    slice_eq = [c for c in calls if ("PartialEq" in c and ("[" in c or "slice" in c)) or c.startswith("core::slice::cmp::")]
+    zips = [c for c in calls if c.endswith("::zip")]
+    rep.ob("C13.list-equality", "list == list is whole-slice equality (lengths included)",
+           "ok" if slice_eq and not zips else ("violated" if zips else "undecided"),
+           "the (Vector, Vector) arm of Primitive::equals calls %s" % sorted(mir.short(c) for c in calls if "fmt" not in c)[:6], eq.span, fn=eq.path,
+           key="C13.list-equality|equals")
+    n = 0
+    for f in F.crates["bytecode"].fns:
+        for c in f.calls():
+            if not c.matches("core::iter::traits::iterator::Iterator::zip"):
+                continue
+            n += 1
+            lens = [x for x in f.calls() if x.matches(("alloc::vec::Vec::len", "core::slice::<impl [T]>::len"))]
+            cmp_ok = False
+            for bi, si, dst, rv, s in f.assigns():
+                if "bin" in rv and rv["bin"] in ("Eq", "Ne") and {op_l for op_l in (mir.op_local(rv["l"]), mir.op_local(rv["r"]))} <= {x.dst["l"] for x in lens} and len(lens) >= 2:
+                    cmp_ok = f.dominates(bi, c.bb)
+            rep.ob("C13.list-equality", "Iterator::zip in %s pairs sequences whose lengths were compared" % mir.short(f.path), "ok" if cmp_ok else "violated",
+                   "zip stops at the shorter sequence: without a length comparison a list equals / matches every list it is a prefix of", c.span, fn=f.path,
+                   key="C13.list-equality|zip|%s" % mir.short(f.path))
+    rep.extra["zip_sites_in_interpreter"] = n
